@@ -2,7 +2,10 @@
   Drivers.C02 — input line: `ins <arch> <hexbytes> <0xaddr> | <state>` TAB `<falcon's answer>`
   (answer = `<BTR in FIL> | <post>` or `err:…`/`panic@…`).
 
-  Output: `<model> | mirror=<same|diff|none|->` TAB `<spec>`
+  Output: `<model> | mirror=<same|diff|none|->` TAB `<spec>` and, when mirror=diff and falcon returned IL, four more fields
+          `MIRROR-BTR \t <the mirror's BTR in FIL> \t <runBTR of the mirror> \t <runBTR of falcon's IL>` (both as full
+          `postLine` over the registers of the request's state): the input of the semantic comparison tools/il_equiv.py
+          and of its per-run self-test (props/smt_tie.py, design/06_smt_tie.md)
     model  = the dumped IL run by the Lean IL semantics (`runBTR`) from the state, as a delta post line
     mirror = the dumped IL compared syntactically with the Lean mirror of the lifter (option (A))
     spec   = the ISA interpreter (`Isa.Mips` / `Isa.Ppc`) run on the raw instruction word(s) from the same state
@@ -13,6 +16,7 @@
 import FalconModel.DriverLoop
 import FalconModel.Isa.MipsLift
 import FalconModel.Isa.PpcLift
+import FalconModel.FilBTR
 open Falcon
 
 namespace C02
@@ -114,10 +118,16 @@ def handle (line : String) : String :=
                 | some r =>
                   let out := runBTR r m.toState
                   let watch := if isMips then mipsWatch else ppcWatch
-                  let mir := match mirror with
-                    | none => "none"
-                    | some r' => if btrEq r r' then "same" else "diff"
-                  s!"{modelLine m watch out} | mirror={mir}\t{spec}"
+                  let (mir, more) : String × String := match mirror with
+                    | none => ("none", "")
+                    | some r' =>
+                      if btrEq r r' then ("same", "")
+                      else
+                        let regs : List String := m.regs.map (fun p => p.1)
+                        let ws : List (Nat × Nat) := m.mem.map fun (a, bs) => (a, bs.length)
+                        ("diff", "\tMIRROR-BTR\t" ++ Fil.btrStr r' ++ "\t" ++ postLine (runBTR r' m.toState) regs ws
+                                 ++ "\t" ++ postLine out regs ws)
+                  s!"{modelLine m watch out} | mirror={mir}\t{spec}{more}"
                 | none => "unparsable-btr\t-"
               | _ => "unparsable-sx\t-"
             | _ => "unparsable-answer\t-"
